@@ -469,6 +469,40 @@ struct Conv {
     }
 };
 
+template <class B, int K>
+auto cfg_tuple_prefix(const ModelField &m, std::size_t i)
+{
+    if constexpr (K == 0)
+        return std::make_tuple();
+    else {
+        const uint8_t *p = m.cfg[i].data();
+        auto c = cfg_reader<typename B::configuration_t>::get(p);
+        return std::tuple_cat(std::make_tuple(std::move(c)), cfg_tuple_prefix<typename B::backend_t, K - 1>(m, i + 1));
+    }
+}
+
+// Build a field of the outer type from its first K configurations and
+// std::move(inner.backend()): backend() is a const reference, so this must copy.
+template <class TrO, class TrI, int K>
+struct Wrap {
+    using FO = covfie::field<typename TrO::B>;
+    using FI = covfie::field<typename TrI::B>;
+    static void wrap(void *mem, const ModelField &m, const void *inner)
+    {
+        auto tup = cfg_tuple_prefix<typename TrO::B, K>(m, 0);
+        const FI &in = *static_cast<const FI *>(inner);
+        Sut s;
+        std::apply(
+            [mem, &in](auto &&...c) { return new (mem) FO(covfie::make_parameter_pack(std::move(c)..., std::move(in.backend()))); },
+            std::move(tup)
+        );
+    }
+    static void reg()
+    {
+        sim::ops_of(TrO::index).wrap[TrI::index] = &wrap;
+    }
+};
+
 // Thread-world entry points: everything goes through field_view, as user code does.
 template <class Tr>
 struct Thr {
